@@ -264,14 +264,25 @@ class Consumer:
                 self.pulling = True
                 with anyio.CancelScope() as self.scope:
                     try:
-                        ev = await wait_event(self.sigs, self.flt)
+                        if len(self.sigs) == 1 and self.s % 2:
+                            ev = await self.sigs[0].wait_event(self.flt)        # the method form of the same call
+                        else:
+                            ev = await wait_event(self.sigs, self.flt)
                     finally:
                         self.pulling = False
                         self.open = False
                     self.record(ev)
                     d.note(f"left {self.s}")
                 return
-            async with stream_events(self.sigs, self.flt, max_queue_size=self.cap) as stream:
+            if len(self.sigs) == 1 and self.s % 2:
+                # the method form of the same call; the default queue size is 50
+                cm = self.sigs[0].stream_events(self.flt) if self.cap == 50 else \
+                    self.sigs[0].stream_events(self.flt, max_queue_size=self.cap)
+            elif self.cap == 50 and self.s % 3 == 0:
+                cm = stream_events(self.sigs, self.flt)
+            else:
+                cm = stream_events(self.sigs, self.flt, max_queue_size=self.cap)
+            async with cm as stream:
                 self.open = True
                 d.results[opidx] = ["ok"]
                 while True:
